@@ -22,3 +22,11 @@ Proof. exact cterm_total. Qed.
 Theorem C12_input_rejection : forall suffix n, read_dispatch suffix n = Accept <-> (lower suffix = ".pdb"%string /\ n <> 0).
 Proof. exact read_dispatch_spec. Qed.
 Print Assumptions C12_cterminus_setup_total.
+
+(* the closest-pair search used by set_backbone_determinants / hydrogen_bond_interaction returns a pair for all non-empty atom lists
+   (model/Locality.v, tied by C05's correspondence): the `assert ... is not None` behind the `if not interaction_atoms: continue` guards hold *)
+From Coq Require Import Reals.
+From V Require Import Num VecGen Locality LocalityProofs.
+Theorem C12_closest_pair_exists_for_nonempty_lists : forall (a1 : VecGen.vec3 R) r1 a2 r2, snd (smallest None (a1 :: r1) (a2 :: r2)) <> None.
+Proof. exact smallest_finds_a_pair. Qed.
+Print Assumptions C12_closest_pair_exists_for_nonempty_lists.
